@@ -24,6 +24,7 @@ def task_tla(t):
         ("id", _id(t["id"])), ("st", tla(t["st"])), ("held", tla(t["held"])), ("queued", tla(t["queued"])),
         ("rh", tla(t["rh"])), ("flows", tla(set(t["flows"]))), ("sub", str(t["sub"])),
         ("outs", tla(set(t["outs"]))), ("sat", "{" + ", ".join(sorted(_atom(k) for k in t["sat"])) + "}"),
+        ("fsat", "{" + ", ".join(sorted(_atom(k) for k, v in t["sat"].items() if v == "forced")) + "}"),
         ("manual", tla(t["manual"])), ("preok", tla(all(p["ok"] for p in t["pre"]))),
         ("xok", tla(all(t["xsat"].values()) if t["xsat"] else True)),
         ("complete", tla(t["complete"])), ("fwait", tla(t["fwait"])),
@@ -83,7 +84,8 @@ def event_tla(ev):
                 pass
         fl = a.get("flow") or []
         f += [("name", tla(ev["name"])), ("ids", _ids_set(ids)), ("flow", tla(set(str(x) for x in fl))),
-              ("outs", tla(set(a.get("outputs") or []))), ("pres", tla(set(a.get("prerequisites") or [])))]
+              ("outs", tla(set(a.get("outputs") or []))), ("pres", tla(set(a.get("prerequisites") or []))),
+              ("stopcp", str(int(a["cycle_point"])) if str(a.get("cycle_point") or "").lstrip("-").isdigit() else str(NOPOINT))]
     elif e == "remove":
         f += [("t", task_tla(ev["t"])), ("reason", tla("completed" if ev["reason"] == "completed" else ev["reason"])), ("cx", cx)]
     elif e == "state":
@@ -130,8 +132,17 @@ def event_tla(ev):
         f += [("sig", tla(ev["sig"])), ("label", tla(ev["label"])), ("intvl", str(ev["intvl"])), ("clock", str(ev["clock"]))]
     elif e == "xt_ret":
         f += [("sig", tla(ev["sig"])), ("ok", tla(ev["ok"]))]
-    elif e == "cmd_done":
-        f += [("name", tla(ev["name"]))] + _sync_fields(ev["sync"], None)
+    elif e in ("cmd_done", "remove_flushed"):
+        def _hist(h):
+            items = []
+            for k, rows in (h or {}).items():
+                n_, p_ = k.rsplit(".", 1)
+                items.append("<<%s, %d>> :> {%s}" % (tla(n_), int(p_), ", ".join(sorted({tla(set(r)) for r in rows}))))
+            return "(" + " @@ ".join(items) + ")" if items else "<<>>"
+        if e == "remove_flushed":
+            f += [("dbhist", _hist(ev.get("dbhist")))]
+        else:
+            f += [("name", tla(ev["name"]))] + _sync_fields(ev["sync"], None)
     elif e in ("set_stop",):
         f += [("mode", tla(ev["mode"] or "none"))] + _sync_fields(ev["sync"], None)
     elif e in ("stall", "quiescent"):
@@ -152,7 +163,7 @@ def event_tla(ev):
         return None
     return "[" + ", ".join(f"{k} |-> {v}" for k, v in f) + "]"
 
-KEEP = {"xt_call", "xt_ret", "quiescent", "ds_update", "merge", "flow", "cmd", "cmd_done", "env_job", "sched_stop", "restored", "crash", "env_launch", "spawn", "remove", "state", "prepare", "msg", "q_release", "rh_compute", "loop_end", "boot", "set_stop",
+KEEP = {"remove_flushed", "xt_call", "xt_ret", "quiescent", "ds_update", "merge", "flow", "cmd", "cmd_done", "env_job", "sched_stop", "restored", "crash", "env_launch", "spawn", "remove", "state", "prepare", "msg", "q_release", "rh_compute", "loop_end", "boot", "set_stop",
         "stall", "end"}
 
 def run_tla(w_tla: str, events: list, opt: dict):
